@@ -37,7 +37,7 @@ def small_sec(name, depth):
 
 @st.composite
 def link_spec(draw, i):
-    tname = "target%d" % i
+    tname = draw(st.sampled_from(["target%d", "target%d", "tar#get%d", "t #%d"])) % i
     target = draw(small_sec(tname, 2))
     kind = draw(st.sampled_from(["link_abs", "link_rel", "link_rel", "include", "include"]))
     regime = draw(st.sampled_from(["restore", "restore", "overlap"]))
